@@ -74,7 +74,14 @@ def run_multi(case):
         if form == "list":
             m = gen.multi([futs[p] for p in posmap])
         else:
-            m = gen.multi({"k%d" % j: futs[p] for j, p in enumerate(posmap)})
+            d = {"k%d" % j: futs[p] for j, p in enumerate(posmap)}
+            m = gen.multi(d)
+            if form == "dict-mut":
+                # the caller goes on using its dict (drains it, refills it for the next batch): the call took a snapshot
+                for key in list(d)[:1]:
+                    d.pop(key)
+                d["next-batch"] = None
+                d["zz"] = None
         w.pump()
         early = None
         remaining = [i for i in range(k) if not predone[i]]
@@ -108,7 +115,7 @@ def cases_multi(n):
                 for predone in itertools.product((0, 1), repeat=k):
                     pend = [i for i in range(k) if not predone[i]]
                     for order in itertools.permutations(pend):
-                        for form in ("list", "dict"):
+                        for form in ("list", "dict", "dict-mut"):
                             yield (form, posmap, kinds, predone, order)
 
 
@@ -116,9 +123,13 @@ def cases_multi(n):
 def run_wait_iter(case):
     """case = (form, kinds, predone, order, start_after)"""
     from tornado import gen
-    form, kinds, predone, order, start_after = case
+    form, kinds, predone, order, start_after = case[:5]
     k = len(kinds)
     with World() as w:
+        if len(case) > 5 and case[5]:
+            # another iterator, created earlier and given up before its inputs finished, is still alive
+            stale = [asyncio.Future(), asyncio.Future()]
+            abandoned = gen.WaitIterator(*stale)
         futs = [asyncio.Future() for _ in range(k)]
         for i in range(k):
             if predone[i]:
@@ -227,6 +238,8 @@ def cases_wait_iter(n):
                     for start_after in range(0, len(order) + 1):
                         for form in ("args", "kwargs"):
                             yield (form, kinds, predone, order, start_after)
+                            if form == "args" or k <= 2:
+                                yield (form, kinds, predone, order, start_after, 1)
 
 
 # --------------------------------------------------------------------------
@@ -300,9 +313,10 @@ def run_chain(case):
     """case = (akind, a_predone, bstate, bclass)"""
     from tornado.concurrent import chain_future
     import concurrent.futures
-    akind, a_predone, bstate, bclass = case
+    akind, a_predone, bstate, bclass = case[:4]
+    aclass = case[4] if len(case) > 4 else "asyncio"
     with World() as w:
-        a = asyncio.Future()
+        a = asyncio.Future() if aclass == "asyncio" else concurrent.futures.Future()
         b = asyncio.Future() if bclass == "asyncio" else concurrent.futures.Future()
         if a_predone:
             settle(a, akind, 0)
@@ -353,6 +367,8 @@ def cases_chain():
             for bstate in ("pending", "done-before", "cancel-before", "done-between", "cancel-between"):
                 for bclass in ("asyncio", "cf"):
                     yield (akind, a_predone, bstate, bclass)
+                    if akind != "x":
+                        yield (akind, a_predone, bstate, bclass, "cf")    # the source is an executor's future
 
 
 class SyncRaise(Exception):
@@ -420,7 +436,8 @@ class C36(Check):
             "gen.multi (list and dict), gen.WaitIterator (args/kwargs, consumer started after 0..n "
             "completions), gen.with_timeout (input before/after/at-start/never vs deadline; absolute "
             "and timedelta), concurrent.chain_future (b pending / done / cancelled before or between; "
-            "asyncio and concurrent.futures targets); state = one execution; non-trivial = executions "
+            "asyncio and concurrent.futures targets and sources), multi on a dict the caller mutates afterwards, WaitIterator "
+            "next to an abandoned earlier iterator; state = one execution; non-trivial = executions "
             "with >=1 failing or cancelled input or a reordering")
     claim = ("All schedules within the bound are executed on the real combinators over a virtual loop; "
              "each output must settle with exactly the outcome the statement defines, never stay "
